@@ -211,8 +211,10 @@ fn run_history(program: &processor::Program, stack: &[u64], history: &[bool]) ->
 
 fn stepping(ctx: &Ctx, stats: &Mutex<BTreeMap<String, u64>>) {
     for sp in step_programs(ctx.tier) {
-        let program = assembler().compile(sp.src).expect("stepping program");
-        let trace = exec_trace(&program, &sp.stack, processor::AdviceInputs::default(), ExecutionOptions::default()).unwrap().expect("stepping program executes");
+        let program = assembler().compile(sp.src).expect("SUBJECT: stepping program must assemble");
+        let trace = exec_trace(&program, &sp.stack, processor::AdviceInputs::default(), ExecutionOptions::default())
+            .expect("SUBJECT: stepping program must not panic")
+            .expect("SUBJECT: stepping program must execute");
         let rows = rows_of(&trace, &sp.stack);
         let total: u64 = (0..=sp.max_len).map(|l| 1u64 << l).sum();
         let mut all: Vec<Vec<bool>> = (0..=sp.max_len).flat_map(|l| (0..(1u64 << l)).map(move |bits| (0..l).map(|i| (bits >> i) & 1 == 1).collect())).collect();
@@ -330,8 +332,8 @@ fn determinism(ctx: &Ctx, case: &progs::ProgCase, stats: &Mutex<BTreeMap<String,
 fn clk_family(ctx: &Ctx) -> u64 {
     let mut n = 0;
     for src in ["begin clk end", "begin push.1 drop clk swap drop end", "proc.f clk drop end begin repeat.5 push.1 drop end call.f end", "begin push.1 if.true clk else push.2 end end", "begin repeat.70 swap end clk end"] {
-        let p = assembler().compile(src).unwrap();
-        let t = exec_trace(&p, &[], processor::AdviceInputs::default(), ExecutionOptions::default()).unwrap().unwrap();
+        let p = assembler().compile(src).expect("SUBJECT: clk program must assemble");
+        let t = exec_trace(&p, &[], processor::AdviceInputs::default(), ExecutionOptions::default()).expect("SUBJECT: clk program must not panic").expect("SUBJECT: clk program must execute");
         let m = t.main_segment();
         let cycles = t.trace_len_summary().main_trace_len();
         for r in 0..cycles {
